@@ -67,6 +67,11 @@ CHECKS = {
    technique="deterministic simulation of gxz invocation histories on a simulated directory (unmodified main() in-process over the simulated os), compared after every invocation with an executable model of the documented command line; outputs judged by independent decoders and liblzma, compressed inputs from liblzma / reference encoders",
    text="Seeded exploration of directory states x histories of 1-3 invocations x argument vectors (all listed flags, long/bundled forms, '--', operands before options, 0-3 operands with failing members, mixed formats under auto-detection, odd names). Compared: exit status class, resulting tree (names, modes, contents: decompressed exact, compressed by reference decoding), stdout.",
    note="The model encodes the documented semantics and the xz-utils conventions the property names; stderr is not compared; bool-literal file names that gflag would swallow are not generated."),
+
+ "C14": dict(engine="conc", cat="exploration", ref="DESIGN.md §4 C14",
+   technique="deterministic simulation of N caller tasks (each owning its own xz/LZMA/LZMA2 writer or reader) under a seeded lock-step scheduler that decides at every API call and every sink/source call which task proceeds - replayable, shrinkable schedules - with each task's complete observable result compared to its solo run; plus the same task sets run unsynchronised in a binary built with the Go race detector",
+   text="(a) Lock-step simulation is the deciding step for interference through state that survives an API or I/O boundary: exactly one task runs at a time, the seed picks the next; results (sink image / delivered bytes, every call's n and err) must equal the solo results, solo runs must repeat byte-identically, identical tasks must produce identical bytes. (b) The race-detector half observes runtime-chosen schedules (monitoring, labelled as such in evidence) because lock-step parking would blind the detector.",
+   note="No yield points inside codec inner loops (no hook in /repo). A race report is attributed to the last task set started (one case at a time in the race child)."),
 }
 
 NOT_APPLICABLE = {
